@@ -13,6 +13,7 @@ import (
 	"fmt"
 	"os"
 	"path/filepath"
+	"runtime/debug"
 	"sort"
 	"strconv"
 	"strings"
@@ -101,12 +102,12 @@ func Begin(prop, tier, level string) *Run {
 // exhaustive:false).
 func (r *Run) OutOfTime() bool { return time.Now().After(r.deadline) }
 
-func (r *Run) Eval(n int64)    { r.evals.Add(n) }
-func (r *Run) States(n int64)  { r.states.Add(n) }
-func (r *Run) Trans(n int64)   { r.trans.Add(n) }
-func (r *Run) Traces(n int64)  { r.traces.Add(n) }
-func (r *Run) Evals() int64    { return r.evals.Load() }
-func (r *Run) NStates() int64  { return r.states.Load() }
+func (r *Run) Eval(n int64)     { r.evals.Add(n) }
+func (r *Run) States(n int64)   { r.states.Add(n) }
+func (r *Run) Trans(n int64)    { r.trans.Add(n) }
+func (r *Run) Traces(n int64)   { r.traces.Add(n) }
+func (r *Run) Evals() int64     { return r.evals.Load() }
+func (r *Run) NStates() int64   { return r.states.Load() }
 func (r *Run) Elapsed() float64 { return time.Since(r.start).Seconds() }
 
 // Distinct records one distinct non-trivial case under a key (set semantics).
@@ -372,4 +373,36 @@ func Workers() int {
 		}
 	}
 	return 16
+}
+
+// Par runs f on n goroutines; a panic that escapes from f (i.e. from the code
+// under test through an unguarded call in a check) is recorded as a violation
+// with its stack instead of killing the check.
+func (r *Run) Par(n int, f func(shard, nshards int)) {
+	Par(n, func(shard, nshards int) {
+		defer func() {
+			if p := recover(); p != nil {
+				st := string(debug.Stack())
+				if len(st) > 3000 {
+					st = st[:3000]
+				}
+				r.Violate("panic-escaped", fmt.Sprintf("panic escaped from the code under test: %v", p), map[string]interface{}{"stack": st}, nil)
+			}
+		}()
+		f(shard, nshards)
+	})
+}
+
+// Guard runs f and records an escaping panic as a violation under key.
+func (r *Run) Guard(key string, f func()) {
+	defer func() {
+		if p := recover(); p != nil {
+			st := string(debug.Stack())
+			if len(st) > 3000 {
+				st = st[:3000]
+			}
+			r.Violate(key, fmt.Sprintf("panic escaped from the code under test: %v", p), map[string]interface{}{"stack": st}, nil)
+		}
+	}()
+	f()
 }
